@@ -570,5 +570,10 @@ func NormalizeAbsoluteFilePath(src string) string {
 
 // normalizeFirPath is linke NormalizeAbsoluteFilePath with a trailing slash.
 func NormalizeAbsoluteDirPath(path string) string {
-	return NormalizeAbsoluteFilePath(strings.TrimRight(path, "/")) + "/"
+	normalized := NormalizeAbsoluteFilePath(strings.TrimRight(path, "/"))
+	if normalized == "/" {
+		// the root directory already ends in its only slash
+		return normalized
+	}
+	return normalized + "/"
 }
